@@ -148,3 +148,10 @@ func sortStrings(s []string) {
 		}
 	}
 }
+
+// SortedAnyKeys returns the keys of a map in a fixed order (generators must not depend on map iteration order:
+// case lists are regenerated, and indexed, in several processes).
+func SortedAnyKeys(m map[any]any) []any { return sortedAnyKeys(m) }
+
+// SortedKeys is SortedAnyKeys for string-keyed maps.
+func SortedKeys(m map[string]any) []string { return sortedKeys(m) }
